@@ -3,10 +3,16 @@ from __future__ import annotations
 
 import json
 
+import datetime as dt
+
 from harness import common as C
 from harness import dfgen as G
+from harness import matcoq as M
 
 PROP = "C01"
+HEADER = M.HEADER
+MODEL_TARGETS = M.MODEL_TARGETS
+SHARD = 60
 STYPES = ["numerical", "categorical", "multicategorical", "sequence_numerical", "timestamp", "embedding"]
 RULE = ("DataFrames of 1-10 rows with 1-7 columns drawn from six stypes (+ numerical/categorical target), "
         "missing patterns, both pandas string dtypes, separators/time formats, five index labelings; distinct = "
@@ -24,18 +30,87 @@ ASSUMPTIONS = ["float payloads are dyadic rationals so float32/float64 casts are
                "date recognition/parsing is pandas'; the generator emits explicit formats or datetime64"]
 
 
+WS_VARIANTS = ["\u00a0", "\u2003", "\n", "\x1f", "\u3000"]
+SEP_VARIANTS = ["::", ";", ", ", "||", "-", "ab"]
+
+
+def vary(case, rng):
+    """Configurations beyond dfgen's defaults: multi-character separators and
+    non-ASCII / control whitespace around the tokens (str.strip's full set)."""
+    for col in case["cols"]:
+        if col["stype"] != "multicategorical" or col["sep"] is None:
+            continue
+        if rng.chance(0.3):
+            new = rng.pick(SEP_VARIANTS)
+            # tokens of dfgen.TOKENS contain none of the separators except "ab" vs "a","b": keep that one honest
+            if not any(new in t or t in new for t in G.TOKENS):
+                col["cells"] = [c if c is None else c.replace(col["sep"], new) for c in col["cells"]]
+                col["sep"] = new
+        if rng.chance(0.3):
+            ws = rng.pick(WS_VARIANTS)
+            col["cells"] = [c if c is None else c.replace(" ", ws, rng.randint(1, 2)) for c in col["cells"]]
+    return case
+
+
+CENTURIES = [1700, 1800, 1900, 2000, 2100, 2200]
+
+
+def gen_calendar(rng, k=40):
+    """Instants across 1700-2200 (leap days, century non-leap years, year and day
+    boundaries, both sides of the epoch), with and without NaT in the series."""
+    cells = []
+    for _ in range(k):
+        r = rng.random()
+        if r < 0.1:
+            cells.append(None)
+            continue
+        if r < 0.3:
+            y = rng.pick(CENTURIES + [1968, 1969, 1970, 1972, 2024])
+            m, d = rng.pick([(2, 28), (3, 1), (12, 31), (1, 1), (2, 29)])
+            if (m, d) == (2, 29) and not (y % 4 == 0 and (y % 100 != 0 or y % 400 == 0)):
+                d = 28
+        else:
+            y = rng.randint(1700, 2200)
+            m = rng.randint(1, 12)
+            d = rng.randint(1, [31, 29 if (y % 4 == 0 and (y % 100 != 0 or y % 400 == 0)) else 28, 31, 30, 31, 30,
+                                31, 31, 30, 31, 30, 31][m - 1])
+        hh, mm, ss = rng.pick([(0, 0, 0), (23, 59, 59), (rng.randint(0, 23), rng.randint(0, 59), rng.randint(0, 59))])
+        cells.append([y, m, d, hh, mm, ss])
+    if rng.chance(0.5):
+        cells = [c for c in cells if c is not None]   # all-valid series: pandas keeps integer fields
+    return {"kind": "calendar", "cells": cells}
+
+
 def generate(rng, tier):
     n = 500 if tier == "quick" else 6000
-    return [G.gen_frame(rng, stypes=STYPES) for _ in range(n)]
+    cases = [vary(G.gen_frame(rng, stypes=STYPES), rng) for _ in range(n)]
+    cases += [gen_calendar(rng) for _ in range(25 if tier == "quick" else 400)]
+    return cases
+
+
+def run_calendar(case):
+    import pandas as pd
+    from torch_frame.data.mapper import TimestampTensorMapper
+    vals = [pd.NaT if c is None else pd.Timestamp(year=c[0], month=c[1], day=c[2], hour=c[3], minute=c[4],
+                                                   second=c[5]) for c in case["cells"]]
+    ser = pd.Series(vals, dtype="datetime64[us]")
+    return {"ok": True, "rows": TimestampTensorMapper.to_tensor(ser).tolist()}
 
 
 def run(case):
+    if case.get("kind") == "calendar":
+        try:
+            return run_calendar(case)
+        except Exception as ex:
+            return {"ok": False, "exc": C.exc_name(ex), "msg": str(ex)[:300], "tb": C.fmt_exc()}
     try:
         ds, _ = G.build_dataset(case)
+        # the black box of the timestamp pipeline, recorded for the correspondence
+        parsed = {c["name"]: M.parse_timestamps(ds.df, c) for c in case["cols"] if c["stype"] == "timestamp"}
         ds.materialize()
     except Exception as ex:
         return {"ok": False, "exc": C.exc_name(ex), "msg": str(ex)[:300], "tb": C.fmt_exc()}
-    return {"ok": True, "tf": G.read_tf(ds.tensor_frame), "stats": G.read_stats(ds.col_stats)}
+    return {"ok": True, "tf": G.read_tf(ds.tensor_frame), "stats": G.read_stats(ds.col_stats), "parsed": parsed}
 
 
 def locate(tfj, col):
@@ -49,6 +124,8 @@ def locate(tfj, col):
 def oracle(case, obs):
     if "harness_exc" in obs:
         return dict(key="harness-exc", what=obs["harness_exc"], tb=obs.get("tb"))
+    if case.get("kind") == "calendar":
+        return oracle_calendar(case, obs)
     if not obs["ok"]:
         sts = sorted({c["stype"] for c in case["cols"]})
         return dict(key=f"materialize-raises:{obs['exc']}", what=f"materialize raised {obs['exc']}: {obs['msg']}",
@@ -83,7 +160,24 @@ def oracle(case, obs):
     return None
 
 
+def oracle_calendar(case, obs):
+    if not obs["ok"]:
+        return dict(key=f"calendar-raises:{obs['exc']}", what=f"TimestampTensorMapper.to_tensor raised {obs['exc']}")
+    for i, c in enumerate(case["cells"]):
+        exp = [-1] * 7 if c is None else [c[0], c[1] - 1, c[2] - 1, dt.date(c[0], c[1], c[2]).weekday(), c[3], c[4], c[5]]
+        if obs["rows"][i] != exp:
+            return dict(key="calendar-components", what=f"timestamp {c} decomposed as {obs['rows'][i]}, expected {exp}",
+                        expected=exp, observed=obs["rows"][i])
+    if len(obs["rows"]) != len(case["cells"]):
+        return dict(key="calendar-rows", what="row count differs")
+    return None
+
+
 def shrink(case):
+    if case.get("kind") == "calendar":
+        for k in range(len(case["cells"])):
+            yield dict(case, cells=case["cells"][:k] + case["cells"][k + 1:])
+        return
     # fewer columns, fewer rows
     cols = case["cols"]
     for k, c in enumerate(cols):
@@ -101,6 +195,8 @@ def shrink(case):
 def nontrivial_sig(case, obs):
     if not obs.get("ok"):
         return None
+    if case.get("kind") == "calendar":
+        return json.dumps(["calendar", case["cells"]])
     if not any(cell is not None for c in case["cols"] for cell in c["cells"]):
         return None
     sig = [case["n"], case["index"], sorted((c["stype"], c["dtype"], str(c.get("sep")), str(c.get("fmt")),
@@ -113,6 +209,9 @@ def stats(cases, obss):
     for c, o in zip(cases, obss):
         if c is None:
             continue
+        if c.get("kind") == "calendar":
+            d["calendar_instants"] = d.get("calendar_instants", 0) + len(c["cells"])
+            continue
         d["index"][c["index"]] = d["index"].get(c["index"], 0) + 1
         d["rows"][c["n"]] = d["rows"].get(c["n"], 0) + 1
         if not o.get("ok"):
@@ -123,3 +222,41 @@ def stats(cases, obss):
             d["cells"] += len(col["cells"])
             d["missing_cells"] += sum(1 for x in col["cells"] if x is None)
     return d
+
+
+# ------------------------------------------------------------------ Coq side
+def column_cells(tfj, loc, st, n):
+    parent, j = loc
+    feat = tfj["feats"][parent]
+    return [G.canon_sorted(feat[i][j], st) for i in range(n)]
+
+
+def coq_term(case, obs):
+    """Model/Mapper.v pipelines (through Converter.encode_col) and the canonical
+    cell encoding of Model/MapperSpec.v evaluated on every column of the frame and
+    compared with the cells the implementation produced."""
+    if not obs.get("ok"):
+        return None
+    if case.get("kind") == "calendar":
+        secs = [M.epoch_seconds(c) for c in case["cells"]]
+        idx = M.plist(range(len(secs)), lambda i: "tt")
+        rows = M.plist(obs["rows"], lambda r: M.pecell(r, True))
+        return f"check_col {idx} (RTime {M.plist(secs, lambda s: M.popt(s, M.zs))}) {rows}"
+    tfj = obs["tf"]
+    parts = []
+    for col in case["cols"]:
+        st = col["stype"]
+        stats = obs["stats"].get(col["name"], {})
+        raw = M.rawcol(col, stats, parsed=obs["parsed"].get(col["name"]))
+        is_int = M.is_int_stype(st)
+        if col["name"] == case["target"]:
+            if tfj["y"] is None:
+                return "false"
+            cells = [[v] for v in tfj["y"]]
+        else:
+            loc = locate(tfj, col)
+            if loc is None:
+                return "false"
+            cells = column_cells(tfj, loc, st, case["n"])
+        parts.append(f"check_col idx ({raw}) {M.plist(cells, lambda c: M.pecell(c, is_int))}")
+    return f"(let idx := {M.labels_of(case)} in " + " && ".join(parts) + ")"
